@@ -20,6 +20,8 @@ val id : __ -> __
 
 val add : nat -> nat -> nat
 
+val sub : nat -> nat -> nat
+
 type positive =
 | XI of positive
 | XO of positive
@@ -174,6 +176,8 @@ val skipn : nat -> 'a1 list -> 'a1 list
 
 val w8 : z -> z
 
+val w32 : z -> z
+
 val w64 : z -> z
 
 val s64 : z -> z
@@ -194,11 +198,31 @@ val or64 : z -> z -> z
 
 val xor64 : z -> z -> z
 
+val not64 : z -> z
+
 val shl64 : z -> z -> z
 
 val shr64 : z -> z -> z
 
+val add32 : z -> z -> z
+
+val sub32 : z -> z -> z
+
+val mul32 : z -> z -> z
+
+val and32 : z -> z -> z
+
+val or32 : z -> z -> z
+
+val not32 : z -> z
+
+val shl32 : z -> z -> z
+
 val sub8 : z -> z -> z
+
+val or8 : z -> z -> z
+
+val xor8 : z -> z -> z
 
 val addi64 : z -> z -> z
 
@@ -216,11 +240,17 @@ val at_ : bytes -> z -> z
 
 val slice_from : 'a1 list -> z -> 'a1 list
 
+val slice_to : 'a1 list -> z -> 'a1 list
+
 val slice : 'a1 list -> z -> z -> 'a1 list
 
 val le_load : nat -> bytes -> z
 
 val le64 : bytes -> z
+
+val le32 : bytes -> z
+
+val le16 : bytes -> z
 
 val isnil : 'a1 option -> bool
 
@@ -353,3 +383,121 @@ val frac_zone_ok : z -> bytes -> bool
 val sep_ok : z -> z -> bool
 
 val iso_spec : z -> bytes -> bool
+
+val asm_hasLessConstL64 : z
+
+val asm_hasLessConstR64 : z
+
+val asm_hasLessConstL32 : z
+
+val asm_hasLessConstR32 : z
+
+val asm_hasMoreConstL64 : z
+
+val asm_hasMoreConstR64 : z
+
+val asm_hasMoreConstL32 : z
+
+val asm_hasMoreConstR32 : z
+
+val asm_lowerCase : z list
+
+val asm_hasLess64 : z -> z -> bool
+
+val asm_hasLess32 : z -> z -> bool
+
+val asm_hasMore64 : z -> z -> bool
+
+val asm_hasMore32 : z -> z -> bool
+
+val asm_ValidByte : z -> bool
+
+val asm_ValidRune : z -> bool
+
+val asm_ValidPrintByte : z -> bool
+
+val asm_ValidPrintRune : z -> bool
+
+val asm_ValidString : nat -> bytes -> bool option
+
+val asm_Valid : nat -> bytes -> bool option
+
+val asm_ValidPrintString : nat -> bytes -> bool option
+
+val asm_ValidPrint : nat -> bytes -> bool option
+
+val asm_EqualFoldString : nat -> bytes -> bytes -> bool option
+
+val asm_EqualFold : nat -> bytes -> bytes -> bool option
+
+val asm_HasPrefixFold : nat -> bytes -> bytes -> bool option
+
+val asm_HasSuffixFold : nat -> bytes -> bytes -> bool option
+
+val asm_HasPrefixFoldString : nat -> bytes -> bytes -> bool option
+
+val asm_HasSuffixFoldString : nat -> bytes -> bytes -> bool option
+
+val run_fuel : bool option -> bool
+
+val asmt_Valid : bytes -> bool
+
+val asmt_ValidString : bytes -> bool
+
+val asmt_ValidPrint : bytes -> bool
+
+val asmt_ValidPrintString : bytes -> bool
+
+val asmt_EqualFold : bytes -> bytes -> bool
+
+val asmt_EqualFoldString : bytes -> bytes -> bool
+
+val asmt_HasPrefixFold : bytes -> bytes -> bool
+
+val asmt_HasPrefixFoldString : bytes -> bytes -> bool
+
+val asmt_HasSuffixFold : bytes -> bytes -> bool
+
+val asmt_HasSuffixFoldString : bytes -> bytes -> bool
+
+val ascii_Valid : bytes -> bool
+
+val ascii_ValidByte : z -> bool
+
+val ascii_ValidRune : z -> bool
+
+val ascii_ValidString : bytes -> bool
+
+val ascii_ValidPrint : bytes -> bool
+
+val ascii_ValidPrintByte : z -> bool
+
+val ascii_ValidPrintRune : z -> bool
+
+val ascii_ValidPrintString : bytes -> bool
+
+val ascii_EqualFold : bytes -> bytes -> bool
+
+val ascii_HasPrefixFold : bytes -> bytes -> bool
+
+val ascii_HasSuffixFold : bytes -> bytes -> bool
+
+val ascii_EqualFoldString : bytes -> bytes -> bool
+
+val ascii_HasPrefixFoldString : bytes -> bytes -> bool
+
+val ascii_HasSuffixFoldString : bytes -> bytes -> bool
+
+val is_ascii : z -> bool
+
+val is_print : z -> bool
+
+val lower : z -> z
+
+val forallb2 : (z -> z -> bool) -> bytes -> bytes -> bool
+
+val fold_eq : bytes -> bytes -> bool
+
+val has_prefix_fold : bytes -> bytes -> bool
+
+val has_suffix_fold : bytes -> bytes -> bool
